@@ -869,12 +869,13 @@ class FragmentSender(object):
 
     def callback(self, index, success):
 
-        if not success and self.retry != RetryMode.NONE:
-            # resend the fragment that timed out
-            cbk = lambda success, idx=index: self.callback(idx, success)
-            self.conn._send_type(PacketType.APP_FRAGMENT, self.fragments[index], self.retry, cbk)
-        else:
-            self.acks[index] = success
+        self.acks[index] = success
+
+        if all(ack is not None for ack in self.acks):
+            self.conn.pending_fragments.pop(self.frag_id, None)
+            if self.user_callback:
+                cbk, self.user_callback = self.user_callback, None
+                cbk(all(self.acks))
 
     @staticmethod
     def parsePayload(payload):
@@ -1049,9 +1050,6 @@ class ConnectionBase(object):
             # fragmented messages use different retry logic
             self.seq_fragment += 1
             sender = FragmentSender(self, self.seq_fragment, retry, callback)
-
-            if retry == RetryMode.RETRY_ON_TIMEOUT:
-                retry = RetryMode.NONE
 
             for frag, cbk in sender.build(payload):
                 self._send_type(PacketType.APP_FRAGMENT, frag, retry, cbk)
